@@ -124,18 +124,32 @@ func genC06(tier, out string, sum *Summary) {
 	fixed := []string{"merge(`{\"base\":\"lit\"}`, @)", "merge(`{\"a\":1}`, `{\"b\":2}`, {c: @})", "`[3,1,2]` | sort(@)", "sort(`[\"b\",\"c\",\"a\"]`)", "`[\"b\",\"c\",\"a\"]` | [@[0], sort(@)[0], @[0]]", "reverse(`[1,2,3]`)",
 		"sort_by(`[{\"k\":2},{\"k\":1}]`, &k)", "`[{\"k\":2},{\"k\":1}]` | [@[0].k, sort_by(@, &k)[0].k, @[0].k]", "group_by(`[{\"k\":\"a\"},{\"k\":\"b\"}]`, &k)", "to_array(`[1]`)", "not_null(`[1,2]`, a)", "`[1,2,3]`[::-1]", "`[1,2,3]`[1:]", "`[[2,1],[3]]`[]",
 		"zip(`[1,2]`, `[3,4]`)", "zip(a, b)", "map(&@, `[[1],[2]]`)", "from_items(`[[\"a\",1]]`)", "items(`{\"a\":1}`)", "values(`{\"a\":[2,1]}`)[0] | sort(@)", "[a, b] | sort(@)", "{x: a, y: b} | merge(@, {z: `1`})", "[`[2,1]`, a][0] | sort(@)",
-		"merge({x: a}, @)", "merge(@, {x: a})", "sort([c, a, b][?@])", "a[*] | sort(@)", "a | sort(@)", "reverse(a)", "sort_by(a, &@)", "a[:] | reverse(@)", "to_array(a) | sort(@)", "not_null(a) | sort(@)", "a || `[2,1]` | sort(@)", "max_by(`[{\"k\":1},{\"k\":2}]`, &k)", "let $l = `[2,1]` in [sort($l), $l]", "let $l = a in [sort($l), $l, reverse($l)]"}
+		"merge({x: a}, @)", "merge(@, {x: a})", "sort([c, a, b][?@])", "a[*] | sort(@)", "a | sort(@)", "reverse(a)", "sort_by(a, &@)", "a[:] | reverse(@)", "to_array(a) | sort(@)", "not_null(a) | sort(@)", "a || `[2,1]` | sort(@)", "max_by(`[{\"k\":1},{\"k\":2}]`, &k)", "let $l = `[2,1]` in [sort($l), $l]", "let $l = a in [sort($l), $l, reverse($l)]",
+		"sort(to_array(a))", "sort_by(to_array(a), &@)", "sort(not_null(a))", "sort(a || b)", "sort((a))", "sort(a[*])", "sort(a[:])", "sort([a][0])", "sort({k: a}.k)", "sort(let $v = a in $v)", "sort(merge({k: a}).k)", "sort(values({k: a})[0])",
+		"reverse(to_array(b))", "sort_by(not_null(a), &@)", "max_by(to_array(a), &@)", "sort(to_array(b)) | [0]", "[sort(to_array(a)), a]", "sort(map(&@, a))", "sort(a) | [@, $.a]",
+		"c | $.a", "a | $.c", "a[*] | [@, $.c]", "a | [?@ > $.c]", "a.{x: @, y: $.c}", "b | {inner: @, outer: $.c}", "a[0] | $", "let $o = $.c in a[*].[@, $o]", "a[*].[@, let $r = $ in $r.c]", "let $r = $ in a | [$r.c, @]",
+		"a || $x", "a[?$x > @]", "c && $x", "let $y = a in b[*].[$y, $z]", "not_null(a, $x)", "[a, b][?@ == $x]"}
 	type item struct {
 		e    *R
 		text string
+		sdoc any // small-scope items carry their document
 	}
 	items := make([]item, 0, n+len(fixed))
 	for _, t := range fixed {
-		items = append(items, item{nil, t})
+		items = append(items, item{nil, t, nil})
+	}
+	// every combination of two constructs, compiled once and reused on three documents
+	ssN := 0
+	for i, sc := range smallScope(ssCfg{funcs: true, lets: true, errs: true, bools: true}, 1, 0) {
+		if tier != "thorough" && i%4 != 0 {
+			continue
+		}
+		items = append(items, item{sc.e, unparse(sc.e), sc.doc})
+		ssN++
 	}
 	for i := 0; i < n; i++ {
 		e := g.expr(3)
-		items = append(items, item{e, unparse(e)})
+		items = append(items, item{e, unparse(e), nil})
 	}
 	for _, it := range items {
 		e, text := it.e, it.text
@@ -152,7 +166,12 @@ func genC06(tier, out string, sum *Summary) {
 		}
 		docs := make([]any, 3)
 		for j := range docs {
-			if j > 0 && e != nil {
+			if it.sdoc != nil {
+				docs[j] = withSpare(deepCopy(it.sdoc))
+				if j > 0 {
+					docs[j] = withSpare(jsonDoc(ssDocs[(len(text)*7+j*5)%len(ssDocs)]))
+				}
+			} else if j > 0 && e != nil {
 				docs[j] = withSpare(docFor(e))
 			} else if e == nil {
 				docs[j] = withSpare(map[string]any{"a": []any{json.Number("3"), json.Number("1"), json.Number("2")}, "b": []any{"y", "x"}, "c": json.Number(strconv.Itoa(j))})
@@ -186,7 +205,7 @@ func genC06(tier, out string, sum *Summary) {
 					c.dist[text+"#"+strconv.Itoa(di)] = true
 				}
 			}
-			if k == 0 && e != nil {
+			if k == 0 && e != nil && it.sdoc == nil {
 				c.emit(e, deepCopy(doc), o, un)
 			}
 			// a result that aliases the input must not be written by later calls: append to results
@@ -217,12 +236,26 @@ func genC07(tier, out string, sum *Summary) {
 	distinct := map[string]bool{}
 	// scratch space kept between calls shows when the calls work on different data
 	fixed := []string{"zip(a, b)", "zip(a, b, a)", "merge(@, {x: a})", "merge({x: a}, {y: b}, @)", "sort(a)", "sort_by(o, &n)[*].n", "a[*] | reverse(@)", "[a, b][]", "map(&[@, @], a)", "group_by(o, &to_string(n))", "let $v = a in [$v, b, $v]", "not_null(c, a, b)", "{p: a, q: b, r: c}", "a[?@ > c]", "max_by(o, &n)", "join(',', map(&to_string(@), a))", "from_items(zip(keys(@), values(@))) | length(@)", "to_string(@)", "a[::-1]", "sum(a) + c"}
-	total := n + len(fixed)
+	// every combination of two constructs (a sample in the quick tier), each goroutine on its own document
+	var ssItems []ssCase
+	for i, sc := range smallScope(ssCfg{funcs: true, lets: true, bools: true}, 1, 0) {
+		if tier == "thorough" || i%12 == 0 {
+			ssItems = append(ssItems, sc)
+		}
+	}
+	total := n + len(fixed) + len(ssItems)
 	for i := 0; i < total; i++ {
 		var e *R
 		var text string
+		var ssDocsW []any
 		if i < len(fixed) {
 			text = fixed[i]
+		} else if i < len(fixed)+len(ssItems) {
+			e = ssItems[i-len(fixed)].e
+			text = unparse(e)
+			for w := 0; w < workers; w++ {
+				ssDocsW = append(ssDocsW, jsonDoc(ssDocs[(i+w)%len(ssDocs)]))
+			}
 		} else {
 			e = g.expr(3)
 			text = unparse(e)
@@ -236,7 +269,9 @@ func genC07(tier, out string, sum *Summary) {
 		shared := genDocWide()
 		for w := range docs {
 			docs[w] = shared
-			if i%2 == 1 || i < len(fixed) {
+			if ssDocsW != nil {
+				docs[w] = ssDocsW[w]
+			} else if i%2 == 1 || i < len(fixed) {
 				if e != nil {
 					docs[w] = docFor(e)
 				} else {
